@@ -20,6 +20,7 @@ def run(prog: Program, rep: Report, tier: str) -> None:
     rep.rule('C16-D1', 'validate-before-mutate: in every mutator of Graph/HRG/FactorGraph/FGG no may-raise event (raise statement, or call of a repo method whose raise condition is not excluded by the guards dominating the call) is reachable after a write to self state')
     rep.rule('C16-D2', 'registry-hit verified: where a parameter-supplied node is found by id in self._nodes and the method goes on, the stored node is compared with the incoming one (or the method raises)')
     rep.rule('C16-D3', 'copy completeness/independence: copy() reads every attribute set by the __init__ chain (dataclass: every field) from self, and never binds a mutable container/graph of self to the copy without copying it')
+    rep.rule('C16-D7', 'edge typing: Edge.__init__ compares label.type with the tuple of its nodes\' labels, in order, and raises on a mismatch (Edge is immutable, so this is where the invariant is established)')
     rep.rule('C16-D4', '__eq__ field coverage: Graph.__eq__ compares nodes, edges and external nodes, HRG.__eq__ compares rules and start, on both operands')
     rep.rule('C16-D5', 'who-may-write: the underscore registries are written only inside fggs/fggs.py (positive control run on a synthetic writer)')
     rep.rule('C16-D6', 'Iterable consumed once: a parameter annotated Iterable[...] is iterated at most once on every non-raising path unless first rebound to a materialised tuple/list')
@@ -30,6 +31,7 @@ def run(prog: Program, rep: Report, tier: str) -> None:
     registry_hits(rep, prog, cm)
     copy_rules(rep, prog, cm)
     eq_rules(rep, prog, cm)
+    edge_typing(rep, prog)
     who_may_write(rep, prog)
     iterable_once(rep, prog)
 
@@ -451,6 +453,26 @@ def copy_rules(rep: Report, prog: Program, cm: ClassModel) -> None:
                          and not (val.value if isinstance(val, ast.DictComp) else val.elt).args and False)
                     rep.ob(rule + ' independence', f.fq(), f"{norm(a)[:80]} [values are mutable objects]", f.loc(a), deep,
                            'the values are copied deeply' if deep else f"`{attr}` maps names to mutable objects (with their weight tensors / value lists); a shallow copy of the values leaves them shared: an in-place update through the copy changes the original")
+        # element-wise copies: a loop over self's nodes / edges / rules hands every element to the copy, on every path
+        if isinstance(ret, ast.Name):
+            ccfg = cfg_of(f)
+            for lp in [x for x in own_nodes(f.node) if isinstance(x, ast.For) and selfn in names_in(x.iter)]:
+                hdr = ccfg.node_of(lp)
+                be = [b for b, lab in ccfg.succ[hdr] if lab == 'iter'][0]
+                tv = names_in(lp.target)
+                def hands_over(k, ccfg=ccfg, tv=tv):
+                    st = ccfg.nodes[k].stmt
+                    if ccfg.nodes[k].kind != 'stmt' or st is None:
+                        return False
+                    for x in ast.walk(st):
+                        if isinstance(x, ast.Call) and isinstance(x.func, ast.Attribute) and ret.id in names_in(x.func.value) and any(names_in(a) & tv for a in x.args):
+                            return True
+                        if isinstance(x, ast.Subscript) and isinstance(x.ctx, ast.Store) and ret.id in names_in(x.value) and isinstance(st, ast.Assign) and (names_in(st.value) & tv or names_in(x.slice) & tv):
+                            return True
+                    return False
+                okp, _ = ccfg.all_paths_pass(be, hands_over, targets={hdr, ccfg.exit})
+                rep.ob(rule + ' completeness', f.fq(), f"for {norm(lp.target)} in {norm(lp.iter)}: every element reaches the copy", f.loc(lp), okp,
+                       'each iteration adds its element to the copy' if okp else 'an iteration can finish without giving its element to the copy: the copy lacks nodes / edges / rules of the original')
         if ci.is_dataclass and isinstance(ret, ast.Call):
             fields = list(attrs)
             for fld, arg in zip(fields, ret.args):
@@ -476,6 +498,44 @@ def copy_rules(rep: Report, prog: Program, cm: ClassModel) -> None:
 
 
 # ------------------------------------------------------------------------------------------ D4
+def edge_typing(rep: Report, prog: Program) -> None:
+    """Every edge's nodes carry the labels its label demands: the only place this is enforced is Edge.__init__ (Edge is
+    immutable afterwards), which must refuse a node tuple whose labels differ from label.type."""
+    rule = 'C16-D7 edge-typing'
+    ci = prog.cls(FG, 'Edge')
+    f = ci.methods.get('__init__')
+    if f is None:
+        rep.ob(rule, ci.fq(), 'Edge.__init__ validates the node labels', f"{ci.module.relpath}:{ci.node.lineno}", False, 'Edge has no constructor of its own'); return
+    cfg = cfg_of(f)
+    pos = f.positional_params()
+    lab, nodes = pos[1], pos[2]
+    hits = []
+    for n, nd in cfg.nodes.items():
+        if nd.kind != 'test':
+            continue
+        for t, a in collect_atoms(nd.expr).items():
+            a2 = inline_temps(f.node, a)
+            if isinstance(a2, ast.Compare) and isinstance(a2.ops[0], (ast.Eq, ast.NotEq)):
+                sides = [norm(a2.left), norm(a2.comparators[0])]
+                if any(s_ in (f"{lab}.type", f"{lab}.node_labels") for s_ in sides) and any(nodes in names_in(x) and '.label' in norm(x) for x in (a2.left, a2.comparators[0])):
+                    hits.append((n, t))
+    ok = False
+    detail = 'no comparison of label.type with the labels of the nodes'
+    for n, t in hits:
+        r = walk(cfg, n, Env(atoms={t: False}), unknown='both')
+        dom = n in cfg.dominators().get(cfg.exit, set()) or all(n in cfg.dominators().get(p, set()) for p, _ in cfg.pred[cfg.exit])
+        if cfg.exit not in r:
+            ok = True; detail = f"when `{t}` is false the constructor raises"
+        else:
+            detail = f"when `{t}` is false the constructor still completes"
+    rep.ob(rule, f.fq(), 'Edge.__init__ refuses nodes whose labels differ from label.type', f.loc(), ok, detail)
+    # the comparison is position by position (a tuple / list of the node labels in order), not a set
+    for n, t in hits:
+        a2 = inline_temps(f.node, collect_atoms(cfg.nodes[n].expr)[t])
+        unordered = any(isinstance(x, (ast.Set, ast.SetComp)) or isinstance(x, ast.Call) and callee_last(x) in ('set', 'frozenset', 'sorted', 'Counter') for x in ast.walk(a2))
+        rep.ob(rule, f.fq(), f"`{t[:70]}` compares the labels in attachment order", f.loc(), not unordered, '' if not unordered else 'the labels are compared as a set / sorted: a permuted attachment passes')
+
+
 def eq_rules(rep: Report, prog: Program, cm: ClassModel) -> None:
     rule = 'C16-D4 eq-coverage'
     need = {'Graph': [{'_nodes'}, {'_edges'}, {'_ext', 'ext'}], 'HRG': [{'_rules'}, {'_start', 'start'}]}
